@@ -279,3 +279,35 @@ func short(g gor) string {
 	}
 	return strings.TrimSuffix(b.String(), " <-")
 }
+
+// closeSettled waits (schedule only, never a verdict) until the connection's
+// close has finished, or is observed parked (an implementation may let close
+// wait for the requests that are still executing), or d has passed.
+func closeSettled(k *ctl, conn string, d time.Duration) bool {
+	deadline := time.Now().Add(d)
+	for i := 0; ; i++ {
+		if k.count(connWho(conn), "close.exit") > 0 {
+			return true
+		}
+		if i%6 == 5 {
+			for _, g := range dumpAll() {
+				if g.state == "running" || g.state == "runnable" {
+					continue
+				}
+				for _, f := range g.funcs {
+					if strings.HasPrefix(f, libPrefix+"(*Conn).close(") {
+						return false
+					}
+				}
+			}
+		}
+		if time.Now().After(deadline) {
+			return false
+		}
+		if i < 10 {
+			runtime.Gosched()
+		} else {
+			time.Sleep(50 * time.Microsecond)
+		}
+	}
+}
